@@ -60,14 +60,24 @@ func subSend() mon.Sub {
 				return h, nil
 			})
 			w := wsutil.NewWriterSize(dst, st, ws.OpText, bs)
-			switch other {
-			case 0:
-				w.SetExtensions(ms)
-			case 1:
-				w.SetExtensions(rsv3, ms)
-			case 2:
-				w.SetExtensions(ms, rsv3)
+			// half of the cases attach the state through the function adapter with a method value
+			// (wsutil.SendExtensionFunc(state.SetBits)) instead of the state itself: it is the same state either way
+			viaFunc := c.I/5%2 == 1
+			attach := func(ms *wsflate.MessageState) {
+				var x wsutil.SendExtension = ms
+				if viaFunc {
+					x = wsutil.SendExtensionFunc(ms.SetBits)
+				}
+				switch other {
+				case 0:
+					w.SetExtensions(x)
+				case 1:
+					w.SetExtensions(rsv3, x)
+				case 2:
+					w.SetExtensions(x, rsv3)
+				}
 			}
+			attach(ms)
 			nmsg := 1 + c.Rng.Intn(6)
 			var msgs []sendMsg
 			var plain [][]byte
@@ -109,14 +119,7 @@ func subSend() mon.Sub {
 							ms = &wsflate.MessageState{}
 							ms.SetCompressed(m.compressed)
 						}
-						switch other {
-						case 0:
-							w.SetExtensions(ms)
-						case 1:
-							w.SetExtensions(rsv3, ms)
-						case 2:
-							w.SetExtensions(ms, rsv3)
-						}
+						attach(ms)
 					}
 				} else {
 					w.Reset(dst, st, ws.OpCode(m.op))
@@ -125,14 +128,7 @@ func subSend() mon.Sub {
 					if c.Rng.Intn(4) == 0 {
 						msgs[len(msgs)-1].bare = true
 					} else {
-						switch other {
-						case 0:
-							w.SetExtensions(ms)
-						case 1:
-							w.SetExtensions(rsv3, ms)
-						case 2:
-							w.SetExtensions(ms, rsv3)
-						}
+						attach(ms)
 					}
 				}
 				// write in chunks with mixed operations
@@ -295,7 +291,12 @@ func receive(c *mon.C, sh []gen.Shape, rsvs []byte, side ref.Side, plan xport.Pl
 	same := wsutil.RecvExtensionFunc(func(h ws.Header) (ws.Header, error) { return h, nil })
 	chain := (mode/3 + len(sh) + int(rsvs[0])) % 4
 	mode %= 3
-	exts := [][]wsutil.RecvExtension{{ms}, {ms, same}, {same, ms}, {ms, same, same}}[chain]
+	// (the state itself, or - every other case - its UnsetBits method behind the function adapter)
+	var msx wsutil.RecvExtension = ms
+	if (len(stream)+int(rsvs[len(rsvs)-1]))%2 == 1 {
+		msx = wsutil.RecvExtensionFunc(ms.UnsetBits)
+	}
+	exts := [][]wsutil.RecvExtension{{msx}, {msx, same}, {same, msx}, {msx, same, same}}[chain]
 	rd := &wsutil.Reader{Source: xport.NewChunker(stream, plan), State: wsx.State(side, mode != 2, false), SkipHeaderCheck: mode != 0, Extensions: exts}
 	rd.OnIntermediate = func(h ws.Header, r io.Reader) error {
 		interHdrs = append(interHdrs, h)
